@@ -100,7 +100,11 @@ def gen_string(r):
     if c < 0.16:
         return r.choice(["°C", "µs", "Ω", "mm²", "m/s²", "温度", "é", "kΩ·m", "‰", "naïve ünits",
                          "\u2126", "\u212b", "\u212a", "e\u0301", "n\u0303o", "\ufb01"])  # the last six are not NFC-normalised
-    if c < 0.21:
+    if c < 0.19:
+        # strings that LOOK like numbers, booleans or nothing at all in some notation: they are strings
+        return r.choice(["0x1A0", "0XFF", "-0x10", "0b101", "0o17", "1e3", "42", "007", "-1", "+5", "1_000", "3.0", " 12 ", "true", "false", "null", "None",
+                         "nan", "inf", "0x", "1,5", "١٢٣"])
+    if c < 0.23:
         # text that looks like syntax, and literal TAB characters (strings are kept verbatim)
         return r.choice(["// not a comment", "/* nor this */", "a // b /* c", "struct X { }", "mod a.b;", "|", ",",
                          "m\ts", "\t", "a\t\tb ", " \tkm/h"])
